@@ -415,6 +415,33 @@ func gen(g *vh.Gen) {
 		}
 		g.Emit("ip", vh.HS(lit))
 	}
+	// strings.ToLower on ASCII-only strings (every byte value < 128), and on some non-ASCII ones (observed only)
+	for i := 0; i < g.N(1500, 30000); i++ {
+		b := make([]byte, g.Intn(24))
+		for j := range b {
+			b[j] = byte(g.Intn(128))
+		}
+		s := string(b)
+		switch {
+		case g.Chance(0.3):
+			s = genAddress(g)
+		case g.Chance(0.1):
+			s += g.Pick("\u212a", "\u0130", "\xff", "\u00c9")
+		}
+		g.Emit("lower", vh.HS(s))
+	}
+	// ValidateDomainPart on arbitrary byte strings: label domains with multi-byte runes, invalid UTF-8, literals
+	for i := 0; i < g.N(3000, 60000); i++ {
+		d := genDomain(g)
+		if g.Chance(0.5) {
+			d = mutate(g, d)
+		}
+		if g.Chance(0.3) {
+			k := g.Intn(len(d) + 1)
+			d = d[:k] + g.Pick("\u00e9", "\u212a", "\xff", "\xc3", "\xe2\x82", "\xf0\x9f\x98\x80", "\xed\xa0\x80", "\xc0\xaf", "\u0131") + d[k:]
+		}
+		g.Emit("valid", vh.HS(d))
+	}
 	// POP3 USER (open known finding: the argument is used verbatim)
 	for i := 0; i < g.N(300, 5000); i++ {
 		g.Emit("pop3", vh.HS(flipCase(g, plainLocal(g), 0.3)+"@"+flipCase(g, genDomain(g), 0.2)))
